@@ -71,6 +71,7 @@ func runC05(c *core.Ctx) {
 	checkFunctionTables(c, lp, lintScope)
 	checkVariableTables(c, lp, lintScope)
 	checkOperatorCells(c)
+	checkMultiScope(c)
 }
 
 // ---------- helpers over composite literals
@@ -900,4 +901,112 @@ func checkVariableTables(c *core.Ctx, lp *packages.Package, lintScope map[string
 	}
 	c.Floor("ref.var", 500)
 	c.Floor("ref.vartype", 150)
+}
+
+// checkMultiScope (ref.multiscope): in a subroutine annotated with several scopes, an access is admitted only when every
+// one of them allows it: the accessors of the linter context test `objScopes & current == current` (a subset test),
+// not mere overlap (`& != 0`), and no overlap test may short-cut the subset test.
+func checkMultiScope(c *core.Ctx) {
+	prog := c.Prog
+	isField := func(v ssa.Value, name string) bool {
+		ld, ok := v.(*ssa.UnOp)
+		if !ok || ld.Op != token.MUL {
+			return false
+		}
+		f := core.FieldOf(ld.X)
+		return f != nil && f.Name() == name
+	}
+	// classify the scope tests of a function: operands are (a) loads of .Scopes / .curMode or (b) the given parameters
+	type tests struct {
+		subset, overlap []*ssa.BinOp
+	}
+	classify := func(fn *ssa.Function, isObj, isCur func(ssa.Value) bool) tests {
+		var t tests
+		for _, b := range fn.Blocks {
+			for _, in := range b.Instrs {
+				and, ok := in.(*ssa.BinOp)
+				if !ok || and.Op != token.AND {
+					continue
+				}
+				if !((isObj(and.X) && isCur(and.Y)) || (isObj(and.Y) && isCur(and.X))) || and.Referrers() == nil {
+					continue
+				}
+				for _, r := range *and.Referrers() {
+					cmp, ok := r.(*ssa.BinOp)
+					if !ok || (cmp.Op != token.EQL && cmp.Op != token.NEQ) {
+						continue
+					}
+					other := cmp.Y
+					if cmp.Y == ssa.Value(and) {
+						other = cmp.X
+					}
+					if k, isK := core.ConstIntValue(other); isK && k == 0 {
+						t.overlap = append(t.overlap, cmp)
+					} else if isCur(other) {
+						t.subset = append(t.subset, cmp)
+					}
+				}
+			}
+		}
+		return t
+	}
+	helper := prog.SSAFunc("linter/context", "CanAccessVariableInScope")
+	helperOK := false
+	if helper != nil && len(helper.Params) == 4 {
+		ht := classify(helper, func(v ssa.Value) bool { return v == ssa.Value(helper.Params[0]) }, func(v ssa.Value) bool { return v == ssa.Value(helper.Params[3]) })
+		helperOK = len(ht.subset) > 0
+		if helperOK {
+			c.Discharge("ref.multiscope", "CanAccessVariableInScope", helper.Pos(), "fails unless objScope & currentScope == currentScope")
+		} else {
+			c.Report("ref.multiscope", "CanAccessVariableInScope", helper.Pos(), "CanAccessVariableInScope does not test objScope & currentScope == currentScope: in a multi-scope subroutine a variable is admitted although one of the scopes forbids it")
+		}
+	}
+	for _, name := range []string{"Get", "Set", "Unset", "GetFunction"} {
+		fn := prog.SSAFunc("linter/context", "Context."+name)
+		if fn == nil {
+			c.MissingAnchor("ref.multiscope", "linter/context.(*Context)."+name)
+			continue
+		}
+		c.Func(core.FnName(fn))
+		isObj := func(v ssa.Value) bool { return isField(v, "Scopes") }
+		isCur := func(v ssa.Value) bool { return isField(v, "curMode") }
+		t := classify(fn, isObj, isCur)
+		ok := len(t.subset) > 0
+		why := "inline subset test"
+		cd := core.NewCtrlDeps(fn)
+		if !ok && helper != nil && helperOK {
+			for _, b := range fn.Blocks {
+				for _, in := range b.Instrs {
+					call, isCall := in.(*ssa.Call)
+					if !isCall || call.Common().StaticCallee() != helper {
+						continue
+					}
+					args := call.Common().Args
+					if !isObj(args[0]) || !isCur(args[3]) {
+						continue
+					}
+					// the helper call must not sit behind an overlap test
+					behind := false
+					for _, e := range cd.Transitive(b) {
+						cond := core.BranchCond(e.From)
+						for _, ov := range t.overlap {
+							if cond == ssa.Value(ov) {
+								behind = true
+							}
+						}
+					}
+					if !behind {
+						ok = true
+						why = "CanAccessVariableInScope(obj.Scopes, …, curMode), not short-cut by an overlap test"
+					}
+				}
+			}
+		}
+		if ok {
+			c.Discharge("ref.multiscope", name, fn.Pos(), why)
+		} else {
+			c.Report("ref.multiscope", name, fn.Pos(), fmt.Sprintf("(*Context).%s admits an access when the object's scopes merely overlap the current scopes (no `Scopes & curMode == curMode` test reaches every access): in a subroutine annotated with several scopes the linter accepts what one of those scopes forbids, and the simulator fails there", name))
+		}
+	}
+	c.Floor("ref.multiscope", 4)
 }
